@@ -16,6 +16,10 @@
 //!    model run on the abstract event list of the program. Oracle: success => every parameter is
 //!    within its limit; all parameters within limits => not failed by a limit; a limit error
 //!    names a limit that a parameter of the program really exceeds.
+//!  * deterministic boundary family (identical for every seed, generated before the random stream):
+//!    hand-written scenarios through the same `run_direct` / `run_tx` paths, one class name each
+//!    (`detc_*`), every comparison of the modelled code at limit-1 / limit / limit+1 counted as
+//!    `det_*_<relation>` with a floor, plus the heap-drop peak invariant on real transactions.
 //!  * boundary: heap / track total limits on real transactions: if a run fails with
 //!    `actual = a` under limit L then a > L, the same program under limit a-1 fails with the same
 //!    a, and under limit a it does not fail at a any more (`>` not `>=`).
@@ -222,7 +226,23 @@ fn some_event(size: usize) -> Event {
     }
 }
 
+/// A direct-drive scenario: configuration, enabled-module flags, the canonical keys the IO events
+/// refer to (by index) and the call list. Random scenarios come from `gen_direct`, hand-written
+/// ones from `det_direct_family`; both are executed by `run_direct`.
+struct Scenario {
+    lp: LimitParameters,
+    limits_on: bool,
+    runtime_on: bool,
+    pool: Vec<CanonicalSubstateKey>,
+    ops: Vec<DOp>,
+}
+
 fn direct_case(rng: &mut Rng, report: &mut Report, idx: usize) -> String {
+    let sc = gen_direct(rng, report);
+    run_direct(&sc, report, idx, None)
+}
+
+fn gen_direct(rng: &mut Rng, report: &mut Report) -> Scenario {
     // configuration
     let flavour = rng.below(4);
     let mut lp = LimitParameters::babylon_genesis();
@@ -353,7 +373,41 @@ fn direct_case(rng: &mut Rng, report: &mut Report, idx: usize) -> String {
         };
         ops.push(op);
     }
+    Scenario { lp, limits_on, runtime_on, pool, ops }
+}
 
+fn rel(x: u128, limit: usize) -> &'static str {
+    let l = limit as u128;
+    if x + 1 == l {
+        "limit_minus_1"
+    } else if x == l {
+        "at_limit"
+    } else if x == l + 1 {
+        "limit_plus_1"
+    } else if x < l {
+        "below"
+    } else {
+        "above"
+    }
+}
+
+/// Runs one scenario on the real LimitsModule / SystemModuleMixer, evaluates the replay oracle on
+/// every answer and returns the Coq case. `det` = class name of a deterministic boundary scenario:
+/// then every checked comparison is also counted as det_<what>_<relation to its limit>.
+fn run_direct(sc: &Scenario, report: &mut Report, idx: usize, det: Option<&str>) -> String {
+    let (lp, limits_on, runtime_on, pool, ops) = (sc.lp, sc.limits_on, sc.runtime_on, &sc.pool, &sc.ops);
+    let nkeys = pool.len();
+    let _ = nkeys;
+    if let Some(c) = det {
+        report.count(c);
+    }
+    macro_rules! detcount {
+        ($($arg:tt)*) => {
+            if det.is_some() {
+                report.count(&format!($($arg)*));
+            }
+        };
+    }
     // run the real objects
     let mut module = LimitsModule::from_params(lp);
     let mut mixer = make_mixer(lp, limits_on, runtime_on);
@@ -376,6 +430,7 @@ fn direct_case(rng: &mut Rng, report: &mut Report, idx: usize) -> String {
                     _ => report.oracle_failure(idx, "", &format!("op {}: key of size {} under max_substate_key_size {} answered {:?}", j, k.size(), lp.max_substate_key_size, r), json!({"cfg": cfg_json(&lp), "op": format!("{:?}", op)})),
                 }
                 report.count(if want_err { "direct_key_over" } else { "direct_key_within" });
+                detcount!("det_key_{}_{}", match k { SKey::Map(_) => "map", SKey::Sorted(_) => "sorted", SKey::Field => "field" }, rel(k.size() as u128, lp.max_substate_key_size));
                 (r, format!("OKey {}", k.coq()))
             }
             DOp::Value(raw) => {
@@ -389,6 +444,7 @@ fn direct_case(rng: &mut Rng, report: &mut Report, idx: usize) -> String {
                     _ => report.oracle_failure(idx, "", &format!("op {}: value of size {} under max_substate_value_size {} answered {:?}", j, len, lp.max_substate_value_size, r), json!({"cfg": cfg_json(&lp), "op": format!("{:?}", op)})),
                 }
                 report.count(if want_err { "direct_value_over" } else { "direct_value_within" });
+                detcount!("det_value_{}", rel(len as u128, lp.max_substate_value_size));
                 (r, format!("OValue {}", len))
             }
             DOp::Io { heap, key, old, new } => {
@@ -423,6 +479,20 @@ fn direct_case(rng: &mut Rng, report: &mut Report, idx: usize) -> String {
                 }
                 if o_consistent {
                     io_oracle(&lp, &pool, &ostores, &r, report, idx, j);
+                    let total: u128 = ostores[*heap as usize].iter().map(|(k, s)| pool[*k].len() as u128 + *s as u128).sum();
+                    let limit = if *heap { lp.max_heap_substate_total_bytes } else { lp.max_track_substate_total_bytes };
+                    let trans = match (old, new) {
+                        (None, Some(_)) => "insert",
+                        (Some(o), Some(n)) if n > o => "grow",
+                        (Some(o), Some(n)) if n < o => "shrink",
+                        (Some(_), Some(_)) => "same",
+                        (Some(_), None) => "remove",
+                        (None, None) => "touch",
+                    };
+                    detcount!("det_{}_{}_{}", if *heap { "heap" } else { "track" }, trans, rel(total, limit));
+                    if total == 0 {
+                        detcount!("det_{}_{}_to_zero", if *heap { "heap" } else { "track" }, trans);
+                    }
                 }
                 (r, format!("OIo ({} {} {} {})", if *heap { "IoHeap" } else { "IoTrack" }, klen, opt_coq(old), opt_coq(new)))
             }
@@ -432,6 +502,9 @@ fn direct_case(rng: &mut Rng, report: &mut Report, idx: usize) -> String {
                 let r = of_result(catch(std::panic::AssertUnwindSafe(|| module.process_io_access(&io))));
                 if o_consistent {
                     io_oracle(&lp, &pool, &ostores, &r, report, idx, j);
+                    let th: u128 = ostores[1].iter().map(|(k, s)| pool[*k].len() as u128 + *s as u128).sum();
+                    let tt: u128 = ostores[0].iter().map(|(k, s)| pool[*k].len() as u128 + *s as u128).sum();
+                    detcount!("det_read_heap_{}_track_{}", rel(th, lp.max_heap_substate_total_bytes), rel(tt, lp.max_track_substate_total_bytes));
                 }
                 (r, format!("OIo {}", if *found { "IoRead" } else { "IoReadNotFound" }))
             }
@@ -453,6 +526,11 @@ fn direct_case(rng: &mut Rng, report: &mut Report, idx: usize) -> String {
                     report.oracle_failure(idx, "", &format!("op {}: log of size {} with {} logs stored answered {:?}, expected {:?}", j, n, o_logs, r, want), json!({"cfg": cfg_json(&lp), "limits_on": limits_on}));
                 }
                 report.count(if want == Res::Ok { "direct_log_ok" } else { "direct_log_err" });
+                if limits_on {
+                    detcount!("det_log_count_{}_size_{}", rel(o_logs as u128 - (want == Res::Ok && runtime_on) as u128 + 1, lp.max_number_of_logs), rel(*n as u128, lp.max_log_size));
+                } else {
+                    detcount!("det_log_limits_off_size_{}", rel(*n as u128, lp.max_log_size));
+                }
                 (r, format!("OLog {}", n))
             }
             DOp::Event(n) => {
@@ -473,6 +551,11 @@ fn direct_case(rng: &mut Rng, report: &mut Report, idx: usize) -> String {
                     report.oracle_failure(idx, "", &format!("op {}: event of size {} with {} events stored answered {:?}, expected {:?}", j, n, o_events, r, want), json!({"cfg": cfg_json(&lp), "limits_on": limits_on}));
                 }
                 report.count(if want == Res::Ok { "direct_event_ok" } else { "direct_event_err" });
+                if limits_on {
+                    detcount!("det_event_count_{}_size_{}", rel(o_events as u128 - (want == Res::Ok && runtime_on) as u128 + 1, lp.max_number_of_events), rel(*n as u128, lp.max_event_size));
+                } else {
+                    detcount!("det_event_limits_off_size_{}", rel(*n as u128, lp.max_event_size));
+                }
                 (r, format!("OEvent {}", n))
             }
             DOp::AssertCanAdd => {
@@ -481,6 +564,7 @@ fn direct_case(rng: &mut Rng, report: &mut Report, idx: usize) -> String {
                 if r != want {
                     report.oracle_failure(idx, "", &format!("op {}: assert_can_add_event with {} events answered {:?}", j, o_events, r), json!({"cfg": cfg_json(&lp)}));
                 }
+                detcount!("det_assert_can_add_count_{}{}", rel(o_events as u128 + 1, lp.max_number_of_events), if limits_on { "" } else { "_limits_off" });
                 (r, "OAssertCanAddEvent".to_string())
             }
             DOp::AddUnchecked(n) => {
@@ -496,6 +580,7 @@ fn direct_case(rng: &mut Rng, report: &mut Report, idx: usize) -> String {
                 if r != want {
                     report.oracle_failure(idx, "", &format!("op {}: add_event_unchecked of size {} answered {:?}", j, n, r), json!({"cfg": cfg_json(&lp)}));
                 }
+                detcount!("det_add_unchecked_size_{}{}", rel(*n as u128, lp.max_event_size), if limits_on { "" } else { "_limits_off" });
                 (r, format!("OAddEventUnchecked {}", n))
             }
             DOp::PanicMsg(n) => {
@@ -509,6 +594,7 @@ fn direct_case(rng: &mut Rng, report: &mut Report, idx: usize) -> String {
                     report.oracle_failure(idx, "", &format!("op {}: panic message of size {} answered {:?}", j, n, r), json!({"cfg": cfg_json(&lp)}));
                 }
                 report.count(if want == Res::Ok { "direct_panicmsg_ok" } else { "direct_panicmsg_err" });
+                detcount!("det_panicmsg_size_{}{}", rel(*n as u128, lp.max_panic_message_size), if limits_on { "" } else { "_limits_off" });
                 (r, format!("OPanicMsg {}", n))
             }
         };
@@ -554,6 +640,278 @@ fn direct_case(rng: &mut Rng, report: &mut Report, idx: usize) -> String {
     )
 }
 
+
+// ------------------------------------------------------------------------------------------------
+// deterministic boundary family (identical for every seed), direct drive
+// ------------------------------------------------------------------------------------------------
+
+/// fixed key pool: canonical key lengths 32 (Field), 35 (Map of 4 bytes), 36 (Sorted, 3 bytes), 31 (empty Map)
+fn det_pool() -> Vec<CanonicalSubstateKey> {
+    let node = |b: u8| {
+        let mut id = [0u8; NodeId::LENGTH];
+        id[0] = b;
+        NodeId(id)
+    };
+    vec![
+        CanonicalSubstateKey { node_id: node(1), partition_number: PartitionNumber(0), substate_key: SubstateKey::Field(0) },
+        CanonicalSubstateKey { node_id: node(2), partition_number: PartitionNumber(1), substate_key: SubstateKey::Map(vec![1, 2, 3, 4]) },
+        CanonicalSubstateKey { node_id: node(3), partition_number: PartitionNumber(2), substate_key: SubstateKey::Sorted(([0, 1], vec![5, 6, 7])) },
+        CanonicalSubstateKey { node_id: node(4), partition_number: PartitionNumber(3), substate_key: SubstateKey::Map(vec![]) },
+    ]
+}
+
+fn det_direct_family() -> Vec<(String, Scenario)> {
+    let base = || {
+        let mut lp = LimitParameters::babylon_genesis();
+        lp.max_heap_substate_total_bytes = 1_000_000;
+        lp.max_track_substate_total_bytes = 1_000_000;
+        lp
+    };
+    let sc = |lp: LimitParameters, limits_on: bool, runtime_on: bool, ops: Vec<DOp>| Scenario { lp, limits_on, runtime_on, pool: det_pool(), ops };
+    let mut v: Vec<(String, Scenario)> = Vec::new();
+    let pool = det_pool();
+    assert!(pool[0].len() == 32 && pool[1].len() == 35 && pool[2].len() == 36 && pool[3].len() == 31);
+
+    // --- process_substate_key: every key shape against limits 0..3 (Map len, Sorted len + 2, Field 1)
+    for l in 0..=3usize {
+        let mut lp = base();
+        lp.max_substate_key_size = l;
+        let ops = vec![
+            DOp::Key(SKey::Map(0)),
+            DOp::Key(SKey::Map(1)),
+            DOp::Key(SKey::Map(2)),
+            DOp::Key(SKey::Map(3)),
+            DOp::Key(SKey::Map(4)),
+            DOp::Key(SKey::Sorted(0)),
+            DOp::Key(SKey::Sorted(1)),
+            DOp::Key(SKey::Sorted(2)),
+            DOp::Key(SKey::Field),
+        ];
+        v.push((format!("detc_key_limit_{}", l), sc(lp, true, true, ops)));
+    }
+    // --- process_substate_value: value.len() = raw + 3 + len(varint(raw)): raw 0 -> 4, 1 -> 5, 2 -> 6, 127 -> 131, 128 -> 133
+    for l in [0usize, 3, 4, 5, 6, 130, 131, 132, 133] {
+        let mut lp = base();
+        lp.max_substate_value_size = l;
+        let ops = vec![DOp::Value(0), DOp::Value(1), DOp::Value(2), DOp::Value(126), DOp::Value(127), DOp::Value(128)];
+        v.push((format!("detc_value_limit_{}", l), sc(lp, true, true, ops)));
+    }
+    // --- process_io_access, one arm at a time (a mutant may touch only one arm)
+    for heap in [true, false] {
+        let arm = if heap { "heap" } else { "track" };
+        let io = |key: usize, old: Option<usize>, new: Option<usize>| DOp::Io { heap, key, old, new };
+        let with = |l: usize| {
+            let mut lp = base();
+            if heap {
+                lp.max_heap_substate_total_bytes = l;
+            } else {
+                lp.max_track_substate_total_bytes = l;
+                lp.max_heap_substate_total_bytes = usize::MAX;
+            }
+            lp
+        };
+        // limit 100, key 0 (32 bytes): insert to limit-1, grow to the limit, grow to limit+1, shrink back to the
+        // limit, remove to 0, insert landing exactly on the limit, remove, insert landing on limit+1
+        v.push((
+            format!("detc_{}_exact_insert_grow_shrink_remove", arm),
+            sc(
+                with(100),
+                true,
+                true,
+                vec![
+                    io(0, None, Some(67)),
+                    io(0, Some(67), Some(68)),
+                    DOp::Read(true),
+                    io(0, Some(68), Some(69)),
+                    DOp::Read(false),
+                    io(0, Some(69), Some(68)),
+                    io(0, Some(68), Some(68)),
+                    io(0, Some(68), None),
+                    DOp::Read(true),
+                    io(0, None, Some(68)),
+                    io(0, Some(68), None),
+                    io(0, None, Some(69)),
+                    io(0, Some(69), None),
+                    io(0, None, Some(67)),
+                ],
+            ),
+        ));
+        // a second key on top of a total that is exactly the limit: the key length counts even for an empty
+        // value; removing it must give back key length and value; an update must not add the key length again
+        v.push((
+            format!("detc_{}_second_key_keylen", arm),
+            sc(
+                with(100),
+                true,
+                true,
+                vec![
+                    io(0, None, Some(68)),
+                    io(3, None, Some(0)),
+                    io(3, Some(0), None),
+                    io(3, None, None),
+                    io(1, None, Some(0)),
+                    io(1, Some(0), Some(0)),
+                    io(1, Some(0), None),
+                    io(0, Some(68), Some(37)),
+                    io(3, None, Some(0)),
+                    io(3, Some(0), Some(1)),
+                    io(3, Some(1), None),
+                    io(0, Some(37), None),
+                ],
+            ),
+        ));
+        // limit 0: every answer reports the counter; remove of the last substate gives exactly 0 (= limit: Ok)
+        v.push((
+            format!("detc_{}_probe_limit_0", arm),
+            sc(
+                with(0),
+                true,
+                true,
+                vec![
+                    io(2, None, Some(5)),
+                    io(2, Some(5), Some(9)),
+                    io(2, Some(9), Some(0)),
+                    io(2, Some(0), None),
+                    DOp::Read(true),
+                    io(2, None, Some(5)),
+                    io(2, Some(5), None),
+                    io(0, None, Some(0)),
+                    io(1, None, Some(1)),
+                    io(0, Some(0), None),
+                    io(1, Some(1), None),
+                    io(3, None, None),
+                    DOp::Read(false),
+                ],
+            ),
+        ));
+        // limit 1 and the smallest totals
+        v.push((
+            format!("detc_{}_three_keys_to_exact_limit", arm),
+            sc(
+                with(32 + 35 + 36 + 31 + 6),
+                true,
+                true,
+                vec![
+                    io(0, None, Some(1)),
+                    io(1, None, Some(2)),
+                    io(2, None, Some(3)),
+                    io(3, None, Some(0)),
+                    io(3, Some(0), Some(1)),
+                    io(3, Some(1), Some(0)),
+                    io(1, Some(2), None),
+                    io(1, None, Some(3)),
+                    io(1, Some(3), Some(2)),
+                ],
+            ),
+        ));
+    }
+    // --- both counters: heap is compared first; a total over the track limit is reported only when the heap is within
+    {
+        let mut lp = base();
+        lp.max_heap_substate_total_bytes = 50;
+        lp.max_track_substate_total_bytes = 50;
+        let h = |key: usize, old: Option<usize>, new: Option<usize>| DOp::Io { heap: true, key, old, new };
+        let t = |key: usize, old: Option<usize>, new: Option<usize>| DOp::Io { heap: false, key, old, new };
+        v.push((
+            "detc_heap_before_track_order".to_string(),
+            sc(
+                lp,
+                true,
+                true,
+                vec![
+                    h(0, None, Some(18)),
+                    t(0, None, Some(19)),
+                    h(0, Some(18), Some(19)),
+                    DOp::Read(true),
+                    h(0, Some(19), Some(18)),
+                    DOp::Read(true),
+                    t(0, Some(19), Some(18)),
+                    DOp::Read(false),
+                    t(0, Some(18), None),
+                    h(0, Some(18), None),
+                ],
+            ),
+        ));
+    }
+    // --- add_log: count check (>=, before the size check), size check (>), a refused log is not counted
+    for (ml, ms, sizes) in [
+        (0usize, 5usize, vec![0usize, 6]),
+        (1, 5, vec![6, 5, 0, 6]),
+        (2, 0, vec![1, 0, 0, 0]),
+        (3, 5, vec![5, 4, 5, 6]),
+        (1, 0, vec![1, 0, 1]),
+    ] {
+        let mut lp = base();
+        lp.max_number_of_logs = ml;
+        lp.max_log_size = ms;
+        v.push((format!("detc_logs_max_{}_size_{}", ml, ms), sc(lp, true, true, sizes.into_iter().map(DOp::Log).collect())));
+    }
+    // --- checked_add_event / assert_can_add_event / add_event_unchecked
+    for (me, ms, ops) in [
+        (0usize, 5usize, vec![DOp::AssertCanAdd, DOp::Event(0), DOp::Event(6), DOp::AddUnchecked(5), DOp::AddUnchecked(6)]),
+        (1, 5, vec![DOp::AssertCanAdd, DOp::Event(6), DOp::Event(5), DOp::AssertCanAdd, DOp::Event(0), DOp::AddUnchecked(4), DOp::Event(6)]),
+        (2, 0, vec![DOp::Event(1), DOp::Event(0), DOp::AssertCanAdd, DOp::AddUnchecked(0), DOp::AssertCanAdd, DOp::AddUnchecked(1), DOp::Event(0)]),
+        (3, 5, vec![DOp::Event(5), DOp::Event(4), DOp::Event(6), DOp::AddUnchecked(4), DOp::AddUnchecked(5), DOp::AddUnchecked(6)]),
+    ] {
+        let mut lp = base();
+        lp.max_number_of_events = me;
+        lp.max_event_size = ms;
+        v.push((format!("detc_events_max_{}_size_{}", me, ms), sc(lp, true, true, ops)));
+    }
+    // --- set_panic_message
+    for (ms, sizes) in [(0usize, vec![0usize, 1]), (7, vec![6, 7, 8])] {
+        let mut lp = base();
+        lp.max_panic_message_size = ms;
+        v.push((format!("detc_panicmsg_limit_{}", ms), sc(lp, true, true, sizes.into_iter().map(DOp::PanicMsg).collect())));
+    }
+    // --- EnabledModules: LIMITS off (every over-limit mixer call passes), TRANSACTION_RUNTIME off (nothing is stored,
+    // so the count checks never trigger unless the maximum is 0)
+    {
+        let mut lp = base();
+        lp.max_number_of_logs = 0;
+        lp.max_log_size = 0;
+        lp.max_number_of_events = 0;
+        lp.max_event_size = 0;
+        lp.max_panic_message_size = 0;
+        let over = || vec![DOp::AssertCanAdd, DOp::Log(1), DOp::Log(1), DOp::Event(1), DOp::Event(1), DOp::AddUnchecked(1), DOp::PanicMsg(1)];
+        v.push(("detc_flags_limits_off_runtime_on".to_string(), sc(lp, false, true, over())));
+        v.push(("detc_flags_limits_off_runtime_off".to_string(), sc(lp, false, false, over())));
+        v.push(("detc_flags_limits_on_runtime_off_max_0".to_string(), sc(lp, true, false, over())));
+        let mut lp1 = base();
+        lp1.max_number_of_logs = 1;
+        lp1.max_number_of_events = 1;
+        lp1.max_log_size = 1;
+        lp1.max_event_size = 1;
+        let ops = vec![DOp::Log(1), DOp::Log(1), DOp::Log(2), DOp::Event(1), DOp::Event(1), DOp::AssertCanAdd, DOp::Event(2), DOp::AddUnchecked(1), DOp::AssertCanAdd];
+        v.push(("detc_flags_limits_on_runtime_off_max_1".to_string(), sc(lp1, true, false, ops)));
+    }
+    v
+}
+
+/// relation counters that the deterministic direct family must produce (each with floor 1)
+const DET_DIRECT_FLOORS: &[&str] = &[
+    "det_key_map_limit_minus_1", "det_key_map_at_limit", "det_key_map_limit_plus_1",
+    "det_key_sorted_limit_minus_1", "det_key_sorted_at_limit", "det_key_sorted_limit_plus_1",
+    "det_key_field_limit_minus_1", "det_key_field_at_limit", "det_key_field_limit_plus_1",
+    "det_value_limit_minus_1", "det_value_at_limit", "det_value_limit_plus_1",
+    "det_heap_insert_limit_minus_1", "det_heap_insert_at_limit", "det_heap_insert_limit_plus_1",
+    "det_heap_grow_at_limit", "det_heap_grow_limit_plus_1", "det_heap_shrink_at_limit", "det_heap_remove_at_limit",
+    "det_heap_remove_to_zero", "det_heap_touch_at_limit", "det_heap_same_at_limit",
+    "det_track_insert_limit_minus_1", "det_track_insert_at_limit", "det_track_insert_limit_plus_1",
+    "det_track_grow_at_limit", "det_track_grow_limit_plus_1", "det_track_shrink_at_limit", "det_track_remove_at_limit",
+    "det_track_remove_to_zero", "det_track_touch_at_limit", "det_track_same_at_limit",
+    "det_read_heap_at_limit_track_below", "det_read_heap_limit_plus_1_track_below", "det_read_heap_below_track_at_limit", "det_read_heap_below_track_limit_plus_1",
+    "det_read_heap_at_limit_track_limit_plus_1", "det_read_heap_limit_plus_1_track_limit_plus_1", "det_read_heap_at_limit_track_at_limit",
+    "det_log_count_at_limit_size_at_limit", "det_log_count_limit_plus_1_size_at_limit", "det_log_count_limit_plus_1_size_limit_plus_1",
+    "det_log_count_at_limit_size_limit_plus_1", "det_log_count_limit_minus_1_size_limit_minus_1", "det_log_count_limit_minus_1_size_at_limit",
+    "det_event_count_at_limit_size_at_limit", "det_event_count_limit_plus_1_size_at_limit", "det_event_count_limit_plus_1_size_limit_plus_1",
+    "det_event_count_at_limit_size_limit_plus_1", "det_event_count_limit_minus_1_size_limit_minus_1",
+    "det_assert_can_add_count_at_limit", "det_assert_can_add_count_limit_plus_1", "det_assert_can_add_count_limit_plus_1_limits_off",
+    "det_add_unchecked_size_limit_minus_1", "det_add_unchecked_size_at_limit", "det_add_unchecked_size_limit_plus_1", "det_add_unchecked_size_limit_plus_1_limits_off",
+    "det_panicmsg_size_limit_minus_1", "det_panicmsg_size_at_limit", "det_panicmsg_size_limit_plus_1", "det_panicmsg_size_limit_plus_1_limits_off",
+    "det_log_limits_off_size_limit_plus_1", "det_event_limits_off_size_limit_plus_1",
+];
+
 fn io_oracle(lp: &LimitParameters, pool: &[CanonicalSubstateKey], stores: &[BTreeMap<usize, usize>; 2], r: &Res, report: &mut Report, idx: usize, j: usize) {
     let tot = |h: usize| -> u128 { stores[h].iter().map(|(k, s)| pool[*k].len() as u128 + *s as u128).sum() };
     let (track, heap) = (tot(0), tot(1));
@@ -590,6 +948,7 @@ struct Env {
     lock_fee_event_len: usize,
     event_overhead: usize,     // payload length of TestEvent{message of n bytes} = n + overhead (n < 128: ; measured per size class)
     value_overhead: usize,     // stored KV entry length = raw + overhead (for raw in 2^7..2^14: measured at 10_000)
+    buffer_field_len: usize,   // stored length of the BufferLimit state field (measured)
     runs: u64,
 }
 
@@ -606,6 +965,8 @@ enum Item {
     Recurse(u32),
     Invoke(usize),
     Value(usize),
+    /// BufferLimit::new(): a component with one 200 KiB field is created (CreateNodeEvent::Start checks it)
+    BufferNew,
 }
 
 fn varint_len(n: usize) -> usize {
@@ -627,7 +988,7 @@ impl Env {
             .execute_manifest(ManifestBuilder::new().lock_fee_from_faucet().call_function(tl, "TransactionLimitTest", "new", manifest_args!()).build(), vec![])
             .expect_commit_success()
             .new_component_addresses()[0];
-        let mut env = Env { ledger, tl, rec, comp, lock_fee_event_len: 0, event_overhead: 0, value_overhead: 0, runs: 0 };
+        let mut env = Env { ledger, tl, rec, comp, lock_fee_event_len: 0, event_overhead: 0, value_overhead: 0, buffer_field_len: 0, runs: 0 };
         // measurements under the default limits (from the outputs of the engine, not from the limit code)
         let r = env.exec(&[Item::Event(10), Item::Value(10_000)], None);
         let c = r.expect_commit_success();
@@ -656,11 +1017,34 @@ impl Env {
         }
         env.value_overhead = best.expect("stored KV entry of the calibration run");
         assert!(env.lock_fee_event_len > 0 && env.event_overhead > 0);
+        let r = env.exec(&[Item::BufferNew], None);
+        let c = r.expect_commit_success();
+        for (_, node) in &c.state_updates.by_node {
+            let NodeStateUpdates::Delta { by_partition } = node;
+            for (_, part) in by_partition {
+                if let PartitionStateUpdates::Delta { by_substate } = part {
+                    for (_, upd) in by_substate {
+                        if let DatabaseUpdate::Set(v) = upd {
+                            if v.len() >= 200 * 1024 && v.len() < 200 * 1024 + 100 {
+                                env.buffer_field_len = v.len();
+                            }
+                        }
+                    }
+                }
+            }
+        }
+        assert!(env.buffer_field_len > 0);
         env
     }
 
     fn manifest(&self, items: &[Item]) -> TransactionManifestV1 {
-        let mut b = ManifestBuilder::new().lock_fee_from_faucet();
+        self.manifest_fee(items, true)
+    }
+    fn manifest_fee(&self, items: &[Item], fee: bool) -> TransactionManifestV1 {
+        let mut b = ManifestBuilder::new();
+        if fee {
+            b = b.lock_fee_from_faucet();
+        }
         for it in items {
             b = match it {
                 Item::Log(n) => b.call_function(self.tl, "TransactionLimitTest", "emit_log_of_size", manifest_args!(*n)),
@@ -669,6 +1053,7 @@ impl Env {
                 Item::Recurse(n) => b.call_function(self.rec, "Caller", "recursive", manifest_args!(*n)),
                 Item::Invoke(n) => b.call_function(self.tl, "InvokeLimitsTest", "call", manifest_args!(*n)),
                 Item::Value(n) => b.call_function(self.tl, "TransactionLimitSubstateTest", "write_large_values", manifest_args!(vec![*n])),
+                Item::BufferNew => b.call_function(self.tl, "BufferLimit", "new", manifest_args!()),
             };
         }
         b.build()
@@ -759,6 +1144,11 @@ fn receipt_outcome(r: &Result<TransactionReceipt, String>) -> (String, Option<Tr
 }
 
 fn tx_case(env: &mut Env, rng: &mut Rng, report: &mut Report, idx: usize) -> String {
+    let (lp, limits_on, items) = gen_tx(env, rng, report);
+    run_tx(env, lp, limits_on, true, &items, report, idx, None)
+}
+
+fn gen_tx(env: &mut Env, rng: &mut Rng, report: &mut Report) -> (LimitParameters, bool, Vec<Item>) {
     let mut lp = LimitParameters::babylon_genesis();
     lp.max_call_depth = match rng.below(20) {
         0 => 0,
@@ -825,10 +1215,22 @@ fn tx_case(env: &mut Env, rng: &mut Rng, report: &mut Report, idx: usize) -> Str
                 Item::Recurse(n) => lp.max_call_depth = lp.max_call_depth.max(*n as usize),
                 Item::Invoke(n) => lp.max_invoke_input_size = lp.max_invoke_input_size.max(env.invoke_len(*n)),
                 Item::Value(n) => lp.max_substate_value_size = lp.max_substate_value_size.max(env.value_len(*n)),
+                Item::BufferNew => {}
             }
         }
     }
-    for it in &items {
+    (lp, limits_on, items)
+}
+
+/// Runs one program under one configuration on the ledger, evaluates the oracle and returns the Coq
+/// case. `fee` = the manifest starts with faucet.lock_fee (otherwise costing is disabled, so that
+/// call depth limits 0 and 1 and event count limit 0 can be met by the program itself).
+#[allow(clippy::too_many_arguments)]
+fn run_tx(env: &mut Env, lp: LimitParameters, limits_on: bool, fee: bool, items: &[Item], report: &mut Report, idx: usize, det: Option<&str>) -> String {
+    if let Some(c) = det {
+        report.count(c);
+    }
+    for it in items {
         report.count(match it {
             Item::Log(_) => "tx_item_log",
             Item::Event(_) => "tx_item_event",
@@ -836,16 +1238,19 @@ fn tx_case(env: &mut Env, rng: &mut Rng, report: &mut Report, idx: usize) -> Str
             Item::Recurse(_) => "tx_item_recurse",
             Item::Invoke(_) => "tx_item_invoke",
             Item::Value(_) => "tx_item_value",
+            Item::BufferNew => "tx_item_buffer_new",
         });
     }
 
     // abstract event list of the program
     // the transaction processor runs in the root frame (depth 0)
     let mut ops: Vec<String> = Vec::new();
-    ops.extend(["OInvoke 0", "OInvoke 0", "OAssertCanAddEvent"].map(String::from)); // faucet.lock_fee -> vault.lock_fee
-    ops.push(format!("OLockFeeEmit {}", env.lock_fee_event_len));
-    ops.extend(["OReturn", "OReturn"].map(String::from));
-    for it in &items {
+    if fee {
+        ops.extend(["OInvoke 0", "OInvoke 0", "OAssertCanAddEvent"].map(String::from)); // faucet.lock_fee -> vault.lock_fee
+        ops.push(format!("OLockFeeEmit {}", env.lock_fee_event_len));
+        ops.extend(["OReturn", "OReturn"].map(String::from));
+    }
+    for it in items {
         ops.push("OInvoke 0".into());
         match it {
             Item::Log(n) => ops.push(format!("OLog {}", n)),
@@ -871,40 +1276,50 @@ fn tx_case(env: &mut Env, rng: &mut Rng, report: &mut Report, idx: usize) -> Str
                 ops.push("OInvoke 0".into());
                 ops.push("OReturn".into());
             }
+            Item::BufferNew => {
+                // the component node: its state field is the only large substate of the node
+                ops.push(format!("OCreateNode [(KField, {})]", env.buffer_field_len));
+                ops.push("OInvoke 0".into());
+                ops.push("OReturn".into());
+            }
         }
         ops.push("OReturn".into());
     }
 
-    let m = env.manifest(&items);
+    let m = env.manifest_fee(items, fee);
     let r = {
         env.runs += 1;
         let nonce = env.ledger.next_transaction_nonce();
         let tx = TestTransaction::new_v1_from_nonce(m, nonce, btreeset!());
         let mut c = Env::config(Some(lp));
-        if !limits_on {
+        if !limits_on || !fee {
             let mut o = c.system_overrides.clone().unwrap();
-            o.disable_limits = true;
+            o.disable_limits = !limits_on;
+            o.disable_costing = !fee;
             c.system_overrides = Some(o);
         }
         let ledger = &mut env.ledger;
         catch(std::panic::AssertUnwindSafe(|| ledger.execute_transaction_no_commit(tx, c)))
     };
     let (class, lim) = receipt_outcome(&r);
-    let input = json!({"cfg": cfg_coq(&lp), "limits_on": limits_on, "items": format!("{:?}", items), "engine": format!("{} {:?}", class, lim)});
+    let input = json!({"cfg": cfg_coq(&lp), "limits_on": limits_on, "fee": fee, "items": format!("{:?}", items), "engine": format!("{} {:?}", class, lim)});
     report.count(&format!("tx_{}", class.split(':').next().unwrap()));
     if let Some(e) = &lim {
         report.count(&format!("tx_err_{}", lerr_coq(e).split(' ').next().unwrap()));
     }
-    let canon = format!("{}|{}|{:?}", cfg_coq(&lp), limits_on, items);
+    let canon = format!("{}|{}|{}|{:?}", cfg_coq(&lp), limits_on, fee, items);
     report.case(&canon, true);
 
     // ---- oracle: the property statement on the parameters of the program ----
     let n_logs = items.iter().filter(|i| matches!(i, Item::Log(_))).count();
-    let n_events = 1 + items.iter().filter(|i| matches!(i, Item::Event(_))).count();
+    let n_events = fee as usize + items.iter().filter(|i| matches!(i, Item::Event(_))).count();
     let mut exceed: Vec<String> = Vec::new(); // what the program exceeds (any of them may be reported)
     if limits_on {
-        if lp.max_call_depth < 2 {
+        if fee && lp.max_call_depth < 2 {
             exceed.push("CallDepthReached".into()); // faucet.lock_fee -> vault.lock_fee
+        }
+        if !items.is_empty() && lp.max_call_depth < 1 {
+            exceed.push("CallDepthReached".into()); // every item is a call from the root frame
         }
         if n_logs > lp.max_number_of_logs {
             exceed.push("TooManyLogs".into());
@@ -912,10 +1327,14 @@ fn tx_case(env: &mut Env, rng: &mut Rng, report: &mut Report, idx: usize) -> Str
         if n_events > lp.max_number_of_events {
             exceed.push("TooManyEvents".into());
         }
-        if env.lock_fee_event_len > lp.max_event_size {
+        if fee && env.lock_fee_event_len > lp.max_event_size {
             exceed.push("LockFeeEventTooLarge".into());
         }
-        for it in &items {
+        for it in items {
+            // these programs call one level deeper (the callee / the module blueprints at globalize)
+            if matches!(it, Item::Invoke(_) | Item::Value(_) | Item::BufferNew) && lp.max_call_depth < 2 {
+                exceed.push("CallDepthReached".into());
+            }
             match it {
                 Item::Log(n) if *n > lp.max_log_size => exceed.push(format!("LogTooLarge {} {}", n, lp.max_log_size)),
                 Item::Event(n) if env.event_len(*n) > lp.max_event_size => exceed.push(format!("EventTooLarge {} {}", env.event_len(*n), lp.max_event_size)),
@@ -923,11 +1342,12 @@ fn tx_case(env: &mut Env, rng: &mut Rng, report: &mut Report, idx: usize) -> Str
                 Item::Recurse(n) if (*n).max(1) as usize > lp.max_call_depth => exceed.push("CallDepthReached".into()),
                 Item::Invoke(n) if env.invoke_len(*n) > lp.max_invoke_input_size => exceed.push(format!("InvokeExceeded {}", env.invoke_len(*n))),
                 Item::Value(n) if env.value_len(*n) > lp.max_substate_value_size => exceed.push(format!("ValueExceeded {}", env.value_len(*n))),
+                Item::BufferNew if env.buffer_field_len > lp.max_substate_value_size => exceed.push(format!("ValueExceeded {}", env.buffer_field_len)),
                 _ => {}
             }
         }
     }
-    let lock_fee_probe = limits_on && env.lock_fee_event_len > lp.max_event_size;
+    let lock_fee_probe = fee && limits_on && env.lock_fee_event_len > lp.max_event_size;
     match (&lim, class.as_str()) {
         (Some(e), _) => {
             let s = lerr_coq(e);
@@ -944,7 +1364,7 @@ fn tx_case(env: &mut Env, rng: &mut Rng, report: &mut Report, idx: usize) -> Str
                 if c.application_logs.len() != n_logs || (limits_on && c.application_logs.len() > lp.max_number_of_logs) {
                     report.oracle_failure(idx, "", &format!("{} logs in the receipt, program emits {}", c.application_logs.len(), n_logs), input.clone());
                 }
-                let user_events = c.application_events.iter().filter(|(id, _)| id.1 == "TestEvent" || id.1 == "LockFeeEvent").count();
+                let user_events = c.application_events.iter().filter(|(id, _)| id.1 == "TestEvent" || (fee && id.1 == "LockFeeEvent")).count();
                 if user_events != n_events {
                     report.oracle_failure(idx, "", &format!("{} execution events in the receipt, program emits {}", user_events, n_events), input.clone());
                 }
@@ -982,6 +1402,24 @@ fn tx_case(env: &mut Env, rng: &mut Rng, report: &mut Report, idx: usize) -> Str
             }
         }
     }
+    if det.is_some() {
+        let tag = if limits_on { "" } else { "_limits_off" };
+        let outcome = if class == "success" { "passes" } else { "fails" };
+        for it in items {
+            let k = match it {
+                Item::Log(n) => format!("det_tx_log_size_{}", rel(*n as u128, lp.max_log_size)),
+                Item::Event(n) => format!("det_tx_event_size_{}", rel(env.event_len(*n) as u128, lp.max_event_size)),
+                Item::Panic(n) => format!("det_tx_panic_size_{}", rel(*n as u128, lp.max_panic_message_size)),
+                Item::Recurse(n) => format!("det_tx_depth_{}_{}", if fee { "fee" } else { "nofee" }, rel((*n).max(1) as u128, lp.max_call_depth)),
+                Item::Invoke(n) => format!("det_tx_invoke_{}", rel(env.invoke_len(*n) as u128, lp.max_invoke_input_size)),
+                Item::Value(n) => format!("det_tx_value_{}", rel(env.value_len(*n) as u128, lp.max_substate_value_size)),
+                Item::BufferNew => format!("det_tx_create_node_value_{}", rel(env.buffer_field_len as u128, lp.max_substate_value_size)),
+            };
+            report.count(&format!("{}{}_{}", k, tag, outcome));
+        }
+        report.count(&format!("det_tx_logs_count_{}{}_{}", rel(n_logs as u128, lp.max_number_of_logs), tag, outcome));
+        report.count(&format!("det_tx_events_count_{}_{}{}_{}", if fee { "fee" } else { "nofee" }, rel(n_events as u128, lp.max_number_of_events), tag, outcome));
+    }
     if idx < 12 {
         report.sample(json!({"tx": input}));
     }
@@ -996,6 +1434,223 @@ fn tx_case(env: &mut Env, rng: &mut Rng, report: &mut Report, idx: usize) -> Str
             None => "ROk".into(),
         }
     )
+}
+
+
+// ------------------------------------------------------------------------------------------------
+// deterministic boundary family, whole transactions
+// ------------------------------------------------------------------------------------------------
+
+/// relation/outcome counters that the deterministic transaction family must produce (each with floor 1)
+const DET_TX_FLOORS: &[&str] = &[
+    "det_tx_depth_nofee_limit_minus_1_passes",
+    "det_tx_depth_nofee_at_limit_passes",
+    "det_tx_depth_nofee_limit_plus_1_fails",
+    "det_tx_depth_fee_limit_minus_1_passes",
+    "det_tx_depth_fee_at_limit_passes",
+    "det_tx_depth_fee_limit_plus_1_fails",
+    "det_tx_invoke_limit_minus_1_passes",
+    "det_tx_invoke_at_limit_passes",
+    "det_tx_invoke_limit_plus_1_fails",
+    "det_tx_log_size_limit_minus_1_passes",
+    "det_tx_log_size_at_limit_passes",
+    "det_tx_log_size_limit_plus_1_fails",
+    "det_tx_event_size_limit_minus_1_passes",
+    "det_tx_event_size_at_limit_passes",
+    "det_tx_event_size_limit_plus_1_fails",
+    "det_tx_value_limit_minus_1_passes",
+    "det_tx_value_at_limit_passes",
+    "det_tx_value_limit_plus_1_fails",
+    "det_tx_create_node_value_limit_minus_1_passes",
+    "det_tx_create_node_value_at_limit_passes",
+    "det_tx_create_node_value_limit_plus_1_fails",
+    "det_tx_logs_count_limit_minus_1_passes",
+    "det_tx_logs_count_at_limit_passes",
+    "det_tx_logs_count_limit_plus_1_fails",
+    "det_tx_events_count_nofee_limit_minus_1_passes",
+    "det_tx_events_count_nofee_at_limit_passes",
+    "det_tx_events_count_nofee_limit_plus_1_fails",
+    "det_tx_events_count_fee_limit_minus_1_passes",
+    "det_tx_events_count_fee_at_limit_passes",
+    "det_tx_events_count_fee_limit_plus_1_fails",
+    "det_tx_panic_size_limit_minus_1_fails",
+    "det_tx_panic_size_at_limit_fails",
+    "det_tx_panic_size_limit_plus_1_fails",
+    "det_tx_depth_fee_above_limits_off_passes",
+    "det_tx_invoke_above_limits_off_passes",
+    "det_tx_value_above_limits_off_passes",
+    "det_tx_create_node_value_above_limits_off_passes",
+    "det_tx_event_size_above_limits_off_passes",
+    "det_tx_log_size_above_limits_off_passes",
+    "det_tx_logs_count_limit_plus_1_limits_off_passes",
+    "det_tx_events_count_nofee_limit_plus_1_limits_off_passes",
+];
+
+fn det_tx_family(env: &mut Env, report: &mut Report, cw: &mut CaseWriter) {
+    let base = LimitParameters::babylon_genesis;
+    let mut run = |env: &mut Env, report: &mut Report, cw: &mut CaseWriter, class: &str, lp: LimitParameters, limits_on: bool, fee: bool, items: Vec<Item>| {
+        let idx = cw.len();
+        let t = run_tx(env, lp, limits_on, fee, &items, report, idx, Some(class));
+        cw.push(t);
+        report.count("cases_det_tx");
+    };
+    let around3 = |m: usize| -> Vec<usize> { [m.checked_sub(1), Some(m), Some(m + 1)].into_iter().flatten().collect() };
+    // call depth: recursive(n) needs depth max(n, 1); without a fee lock the program itself meets limits 0 and 1
+    for max in [0usize, 1, 2, 3, 5] {
+        for n in around3(max) {
+            let mut lp = base();
+            lp.max_call_depth = max;
+            run(env, report, cw, &format!("detc_tx_depth_nofee_max_{}", max), lp, true, false, vec![Item::Recurse(n as u32)]);
+            if max >= 2 {
+                run(env, report, cw, &format!("detc_tx_depth_fee_max_{}", max), lp, true, true, vec![Item::Recurse(n as u32)]);
+            }
+        }
+    }
+    // invoke payload
+    {
+        let l = 20_000usize;
+        for target in around3(l) {
+            let raw = (target - 100..target).find(|r| env.invoke_len(*r) == target).expect("raw size for the invoke payload");
+            let mut lp = base();
+            lp.max_invoke_input_size = l;
+            run(env, report, cw, "detc_tx_invoke_payload", lp, true, true, vec![Item::Invoke(raw)]);
+        }
+    }
+    // number of logs
+    for max in [0usize, 1] {
+        for n in around3(max) {
+            let mut lp = base();
+            lp.max_number_of_logs = max;
+            let mut items: Vec<Item> = (0..n).map(|_| Item::Log(3)).collect();
+            if items.is_empty() {
+                items.push(Item::Recurse(1));
+            }
+            run(env, report, cw, &format!("detc_tx_logs_count_max_{}", max), lp, true, true, items);
+        }
+    }
+    // number of events: without a fee lock the program's own events meet limits 0 and 1; with one the LockFeeEvent counts
+    for (fee, maxes) in [(false, vec![0usize, 1]), (true, vec![0usize, 1, 2])] {
+        for max in maxes {
+            for total in around3(max) {
+                if fee && total == 0 {
+                    continue;
+                }
+                let n = total - fee as usize;
+                let mut lp = base();
+                lp.max_number_of_events = max;
+                let mut items: Vec<Item> = (0..n).map(|_| Item::Event(3)).collect();
+                if items.is_empty() {
+                    items.push(Item::Recurse(1));
+                }
+                run(env, report, cw, &format!("detc_tx_events_count_{}_max_{}", if fee { "fee" } else { "nofee" }, max), lp, true, fee, items);
+            }
+        }
+    }
+    // log / event / panic message sizes, also with limit 0
+    for l in [0usize, 9] {
+        for n in around3(l) {
+            let mut lp = base();
+            lp.max_log_size = l;
+            run(env, report, cw, &format!("detc_tx_log_size_limit_{}", l), lp, true, true, vec![Item::Log(n)]);
+            let mut lp = base();
+            lp.max_panic_message_size = l;
+            run(env, report, cw, &format!("detc_tx_panic_size_limit_{}", l), lp, true, true, vec![Item::Panic(n)]);
+        }
+    }
+    for (fee, n0) in [(false, 3usize), (true, 40)] {
+        for n in around3(n0) {
+            let mut lp = base();
+            lp.max_event_size = env.event_len(n0);
+            run(env, report, cw, &format!("detc_tx_event_size_{}", if fee { "fee" } else { "nofee" }), lp, true, fee, vec![Item::Event(n)]);
+        }
+    }
+    {
+        let mut lp = base();
+        lp.max_event_size = 0;
+        run(env, report, cw, "detc_tx_event_size_limit_0", lp, true, false, vec![Item::Event(0)]);
+    }
+    // substate value written to a KV entry (WriteSubstateEvent::Start) and the field of a created node (CreateNodeEvent::Start)
+    {
+        let l = 12_000usize;
+        for target in around3(l) {
+            let raw = (target - 100..target).find(|r| env.value_len(*r) == target).expect("raw size for the value");
+            let mut lp = base();
+            lp.max_substate_value_size = l;
+            run(env, report, cw, "detc_tx_value_write", lp, true, true, vec![Item::Value(raw)]);
+        }
+        for l in around3(env.buffer_field_len) {
+            let mut lp = base();
+            lp.max_substate_value_size = l;
+            run(env, report, cw, "detc_tx_create_node_value", lp, true, true, vec![Item::BufferNew]);
+        }
+    }
+    // limits disabled: every over-limit item passes
+    {
+        let mut lp = base();
+        lp.max_call_depth = 1;
+        lp.max_number_of_logs = 0;
+        lp.max_log_size = 0;
+        lp.max_number_of_events = 0;
+        lp.max_event_size = 0;
+        lp.max_panic_message_size = 0;
+        lp.max_invoke_input_size = 100;
+        lp.max_substate_value_size = 100;
+        lp.max_heap_substate_total_bytes = 0;
+        lp.max_track_substate_total_bytes = 0;
+        lp.max_substate_key_size = 0;
+        run(env, report, cw, "detc_tx_limits_off", lp, false, true, vec![Item::Log(5), Item::Event(5), Item::Recurse(4), Item::Invoke(5000), Item::Value(5000), Item::BufferNew]);
+        run(env, report, cw, "detc_tx_limits_off", lp, false, true, vec![Item::Log(5), Item::Panic(5)]);
+        run(env, report, cw, "detc_tx_limits_off", lp, false, false, vec![Item::Event(5), Item::Recurse(3)]);
+    }
+}
+
+/// The smallest heap (or track) total limit under which the program commits = its peak total
+/// (binary search on "the receipt is a success"; `>` means limit = peak passes, peak - 1 fails).
+fn peak_total(env: &mut Env, heap: bool, items: &[Item]) -> Option<usize> {
+    let mut passes = |env: &mut Env, l: usize| -> bool {
+        let mut lp = LimitParameters::babylon_genesis();
+        if heap {
+            lp.max_heap_substate_total_bytes = l;
+        } else {
+            lp.max_track_substate_total_bytes = l;
+        }
+        let m = env.manifest(items);
+        let r = env.exec_manifest(m, Some(lp));
+        receipt_outcome(&r).0 == "success"
+    };
+    let (mut lo, mut hi) = (0usize, 1usize << 24);
+    if !passes(env, hi) {
+        return None;
+    }
+    // invariant: fails under lo - 1 (or lo = 0), passes under hi
+    while lo < hi {
+        let mid = lo + (hi - lo) / 2;
+        if passes(env, mid) {
+            hi = mid;
+        } else {
+            lo = mid + 1;
+        }
+    }
+    Some(lo)
+}
+
+/// Heap substates created and dropped again (every function call creates an auth zone node and
+/// the frame's own nodes, all dropped when the call returns: DropNodeEvent::IOAccess with
+/// new_size = None): repeating the same call must not raise the peak heap total. A counter that
+/// is not fully decremented on drop drifts upwards with every repetition.
+fn det_heap_drop_family(env: &mut Env, report: &mut Report, idx: usize) {
+    let prog = |k: usize| -> Vec<Item> { (0..k).map(|_| Item::Recurse(2)).collect() };
+    let peaks: Vec<Option<usize>> = [2usize, 3, 6].iter().map(|k| peak_total(env, true, &prog(*k))).collect();
+    report.extra.insert("heap_peak_of_2_3_6_calls".into(), json!(format!("{:?}", peaks)));
+    match (&peaks[0], &peaks[1], &peaks[2]) {
+        (Some(a), Some(b), Some(c)) if a == b && b == c => report.count("detc_tx_heap_drop_peak_invariant"),
+        _ => report.oracle_failure(
+            idx,
+            "",
+            &format!("peak heap total of 2 / 3 / 6 repetitions of the same call (all heap nodes of a call are dropped when it returns): {:?}", peaks),
+            json!({"program": "k x Caller::recursive(2)"}),
+        ),
+    }
 }
 
 // ------------------------------------------------------------------------------------------------
@@ -1136,7 +1791,7 @@ fn main() {
         args.seed,
         "direct: 10..60 calls on LimitsModule/SystemModuleMixer built from random LimitParameters, sizes at limit-1/limit/limit+1, IO events consistent with a replayed store \
          (plus inconsistent/overflowing ones), non-trivial = at least one call answered Ok and one answered with a limit error; tx: manifests of 1..5 calls into the test blueprints \
-         under overridden limits; boundary: heap/track totals at actual-1/actual; distinct by canonical text",
+         under overridden limits; boundary: heap/track totals at actual-1/actual; a deterministic boundary family (detc_* classes, identical for every seed) precedes the random stream; distinct by canonical text",
     );
     let mut cw = CaseWriter::new("RV.Corr.C49_run RV.Model.C49_Limits", "check");
     let root = Rng::new(args.seed);
@@ -1144,15 +1799,32 @@ fn main() {
     report.extra.insert("lock_fee_event_len".into(), json!(env.lock_fee_event_len));
     report.extra.insert("event_overhead".into(), json!(env.event_overhead));
     report.extra.insert("value_overhead".into(), json!(env.value_overhead));
+    // ---- deterministic boundary family: identical for every seed, before the random stream ----
+    let mut det_classes: Vec<String> = Vec::new();
+    for (class, sc) in det_direct_family() {
+        let idx = cw.len();
+        let t = run_direct(&sc, &mut report, idx, Some(&class));
+        cw.push(t);
+        report.count("cases_det_direct");
+        det_classes.push(class);
+    }
+    det_tx_family(&mut env, &mut report, &mut cw);
+    {
+        let idx = cw.len();
+        det_heap_drop_family(&mut env, &mut report, idx);
+    }
+    let det_n = cw.len();
+    report.extra.insert("deterministic_cases".into(), json!(det_n));
     for i in 0..args.cases {
         let mut rng = root.fork(i as u64);
-        match i % 8 {
+        let i = i + det_n; // case index in the Coq files
+        match (i - det_n) % 8 {
             0 | 3 => {
                 let t = tx_case(&mut env, &mut rng, &mut report, i);
                 cw.push(t);
                 report.count("cases_tx");
             }
-            6 if i % 16 == 6 => {
+            6 if (i - det_n) % 16 == 6 => {
                 let t = boundary_case(&mut env, &mut rng, &mut report, i, None);
                 cw.push(t);
                 report.count("cases_boundary");
@@ -1168,7 +1840,8 @@ fn main() {
     // reaches the receipt wrapped in a TypeCheckError (still a failed transaction): climb from 150000
     {
         let mut rng = root.fork(u64::MAX);
-        let t = boundary_case(&mut env, &mut rng, &mut report, args.cases, Some((false, 5, 150_000)));
+        let idx = cw.len();
+        let t = boundary_case(&mut env, &mut rng, &mut report, idx, Some((false, 5, 150_000)));
         cw.push(t);
     }
     // replay of the known finding lock_fee_event_expect: max_event_size one below the LockFeeEvent payload
@@ -1182,7 +1855,7 @@ fn main() {
         if class == "trap" {
             report.count("known_lock_fee_trap_replayed");
             report.oracle_failure(
-                args.cases,
+                cw.len(),
                 "lock_fee_event_expect",
                 &format!("max_event_size {} < LockFeeEvent payload {}: FungibleVault::lock_fee panics in expect(\"Event should never exceed size.\") (VmError::Native(Trap)) instead of a TransactionLimitsError", lp.max_event_size, env.lock_fee_event_len),
                 input,
@@ -1221,6 +1894,17 @@ fn main() {
     report.floor("known_lock_fee_trap_replayed", 1);
     report.floor("boundary_exceeded", n / 80);
     report.floor("tx_limit", n / 20);
+    // every class of the deterministic family
+    for c in &det_classes {
+        report.floor(c, 1);
+    }
+    for c in DET_DIRECT_FLOORS {
+        report.floor(c, 1);
+    }
+    for c in DET_TX_FLOORS {
+        report.floor(c, 1);
+    }
+    report.floor("detc_tx_heap_drop_peak_invariant", 1);
     cw.write(&args.out, args.shards).unwrap();
     report.write(&args.out).unwrap();
 }
